@@ -12,9 +12,9 @@ BUSY = 8
 
 def words_for(dw, full):
     m = (1 << dw) - 1
-    if full:
+    if full == "all":
         return list(range(1 << dw))
-    base = [int("A5" * 4, 16) & m, int("69" * 4, 16) & m, m, 1, 1 << (dw - 1), 0]
+    base = [int("A5" * 4, 16) & m, int("69" * 4, 16) & m, m, 1, 1 << (dw - 1), 0][:6 if full else 3]
     out = []
     for w in base:
         if w not in out:
@@ -41,7 +41,7 @@ class SpiMasterHarness(Harness):
        regs: CSR front end only - register values visible to the core in this cycle (length, mosi, cs, cs_mode, loopback, start pulse); nsw: answer for the pending start"""
     live_queries = (("spi.master.stuck", BUSY, 0, (), "a transfer never completes (done stays 0 for ever)"),)
 
-    def __init__(self, name, dw=4, div=2, mode="raw", cs_mode=0, loopback=0, ncs=1, full_words=False, swords="all", lengths=None, csr=False, overlap=True, cap=None):
+    def __init__(self, name, dw=4, div=2, mode="raw", cs_mode=0, loopback=0, ncs=1, full_words=False, swords="few", lengths=None, csr=False, overlap=True, cap=None):
         self.name, self.dw, self.div, self.mode, self.cs_mode, self.loopback, self.ncs = name, dw, div, mode, cs_mode, loopback, ncs
         self.words = words_for(dw, full_words)
         self.lengths = list(lengths or range(1, dw + 1))
@@ -82,7 +82,7 @@ class SpiMasterHarness(Harness):
     def swords(self, L):
         if self.loopback:
             return [0]
-        if self.swords_kind == "all" and L <= 4:
+        if (self.swords_kind == "all" and L <= 4) or L <= 2:
             return list(range(1 << L))
         m = (1 << L) - 1
         out = []
@@ -232,7 +232,7 @@ class SpiMasterHarness(Harness):
             else:
                 if csn not in (allhigh, want):
                     return env, ("spi.master.cs_other", f"cs_n = {csn:#b}: a chip that is not selected (cs = {pcs:#b}) is enabled"), 0
-                if csn == allhigh and pcsn != allhigh and xfer is not None and not started:
+                if csn == allhigh and pcsn != allhigh and xfer is not None and pulses:
                     if pulses != L or clk or pclk:
                         return env, ("spi.master.cs_framing", f"cs_n released after {pulses} of {L} clock pulses (clock pin {pclk}->{clk})"), 0
                 if xfer is None and csn != allhigh and idle >= 2:
@@ -250,7 +250,8 @@ class SpiMasterHarness(Harness):
             finished = True
         flags = 0
         if xfer is not None:
-            flags |= BUSY
+            if not finished:
+                flags |= BUSY
             age += 1
             if age > (L + 3)*div + 4:
                 return env, ("spi.master.timeout", f"no irq {age} cycles after start (length {L}, divider {div})"), 0
